@@ -251,9 +251,9 @@ def frame_serialize(I, ref, o, args, kwargs, node):
     n = frame_body_len(I, o, node)
     o.fields['body_len'] = z3.simplify(zint(n)) if not isinstance(n, int) else n
     I.ghost_emit(ref)
-    out = I.fresh('wire', 'str')
-    I.assume(z3.Length(out) == 9 + zint(n))
-    return SymStr('bytes', out)
+    out = I.new_abs('wire')
+    I.assume(I.s_len(out) == 9 + zint(n))
+    return out
 
 
 for _n in FRAME_DEFS:
@@ -427,11 +427,11 @@ def encoder_encode(I, ref, o, args, kwargs, node):
     finally:
         I.g_enc_log.append(('encode', n))
     I.last_encoded = items
-    out = I.fresh('hblock', 'str')
-    I.assume(z3.Length(out) >= (1 if n else 0))
+    out = I.new_abs('hblock')
+    I.assume(I.s_len(out) >= (1 if n else 0))
     if n == 0:
-        I.assume(z3.Length(out) == 0)
-    return SymStr('bytes', out)
+        I.assume(I.s_len(out) == 0)
+    return out
 
 
 def encoder_setattr(I, ref, o, attr, v, node):
@@ -447,9 +447,9 @@ EXTERN_SETATTR['hpack.hpack.Encoder'] = encoder_setattr
 # base64 (ASSUMED inverse pair)
 @extern_call('base64.urlsafe_b64encode')
 def b64enc(I, args, kwargs, node):
-    s = to_zstr(args[0])
-    f = z3.Function('b64enc', z3.StringSort(), z3.StringSort())
-    return SymStr('bytes', f(s))
+    from .bytesmodel import B
+    f = z3.Function('b64enc', B, B)
+    return SymStr('bytes', f(I.to_abs(args[0])))
 
 
 # ---------------------------------------------------------------------------
@@ -535,7 +535,7 @@ def sym_frame(I, desc, name):
         return v
 
     def byts(n):
-        return SymStr('bytes', I.fresh('%s.%s' % (name, n), 'str'))
+        return I.new_abs('%s.%s' % (name, n))
     bl = I.fresh(name + '.body_len', 'int')
     I.assume(z3.And(bl >= 0, bl <= 2 ** 24 - 1))
     f['body_len'] = bl
@@ -550,7 +550,7 @@ def sym_frame(I, desc, name):
         f['stream_weight'] = rng('stream_weight', 0, 255)
         f['exclusive'] = I.fresh(name + '.exclusive', 'bool')
     if cls == 'DataFrame':
-        I.assume(bl == z3.Length(f['data'].s) + z3.If(fl['PADDED'], f['pad_length'] + 1, 0))
+        I.assume(bl == I.s_len(f['data']) + z3.If(fl['PADDED'], f['pad_length'] + 1, 0))
     if cls == 'RstStreamFrame':
         f['error_code'] = rng('error_code', 0, U32)
     if cls == 'SettingsFrame':
@@ -570,7 +570,7 @@ def sym_frame(I, desc, name):
         f['promised_stream_id'] = p
     if cls == 'PingFrame':
         f['opaque_data'] = byts('opaque_data')
-        I.assume(z3.Length(f['opaque_data'].s) == 8)
+        I.assume(I.s_len(f['opaque_data']) == 8)
     if cls == 'GoAwayFrame':
         f['last_stream_id'] = rng('last_stream_id', 0, U32)
         f['error_code'] = rng('error_code', 0, U32)
